@@ -81,9 +81,15 @@ def run_history(mods, job):
     # BOUNDED CONDITIONING: the noises scale with the covariance, so prior-to-noise ratios stay within ~1e4 and the rounding
     # error of the standard update form P - K H P stays many orders below the validity tolerance
     mag = float(10.0 ** rng.integers(-9, 9))
-    if job.get("scale_noise", True):
+    if job.get("scale_noise", True) and not job.get("exact_sensors"):
         pn = {k: v * mag for k, v in pn.items()}
         sn = {k: {r: v * mag for r, v in m.items()} for k, m in sn.items()}
+    elif job.get("exact_sensors"):
+        # third family: (almost) exact sensors -- noise variance 1e-12..1e-10 under covariances of magnitude 1..1e5.  An update then
+        # takes a variance down to ~0 by cancellation and rounding may leave it at -1e-20: still a covariance that is valid up to
+        # rounding relative to its magnitude, which must not be refused.  Refusals of strictly valid inputs only are judged.
+        mag = float(10.0 ** rng.integers(0, 6))
+        sn = {k: {r: v * 10.0 ** -int(rng.integers(10, 13)) for r, v in m.items()} for k, m in sn.items()}
     else:
         # second family: unit noises under large covariances.  Updates then cancel heavily and their outputs may only be valid in
         # the lenient measure; the "never refused" claim still applies to every input that is valid in the strict measure
@@ -122,6 +128,8 @@ def run_history(mods, job):
             ev["valid_out"] = False
             events.append(ev)
             break
+        except np.linalg.LinAlgError:
+            break          # a numerically singular innovation covariance (exact sensors on exactly correlated states): no claim
         except Exception as e:
             ev["outcome"] = "exception:" + type(e).__name__
             ev["detail"] = repr(e)[:200] + traceback.format_exc()[-400:]
@@ -130,7 +138,7 @@ def run_history(mods, job):
             break
         # the ill-conditioned family makes no claim about outputs (prior-to-noise ratios up to 1e10 amplify rounding with cond(S));
         # there only "a strictly valid input is never refused" is judged
-        ev["valid_out"] = valid_cov(cov.data, ref) if job.get("scale_noise", True) else True
+        ev["valid_out"] = valid_cov(cov.data, ref) if (job.get("scale_noise", True) and not job.get("exact_sensors")) else True
         if kind == "update" and cov.data.size:
             # whatever the conditioning, the covariance a sensor update hands back is symmetric relative to ITS OWN magnitude
             # (an asymmetry left by K H P would survive when large variances shrink and be refused later)
@@ -144,7 +152,7 @@ def run_history(mods, job):
         # the bounded, well-conditioned regime the assumptions name: the covariance stays within 1e4 times the magnitude the
         # noises were scaled with (prior-to-noise ratio).  (Relative to `mag` itself: with max(1, mag) a history that starts at
         # 1e-8 could reach a ratio of 1e12 -- cond(S) = 6e8 -- and be judged.)
-        if not np.all(np.isfinite(state.data)) or np.max(np.abs(state.data)) > 1e8 or np.max(np.abs(cov.data)) > 1e4 * mag:
+        if not np.all(np.isfinite(state.data)) or np.max(np.abs(state.data)) > 1e8 or np.max(np.abs(cov.data)) > 1e4 * max(mag, 1.0 if job.get("exact_sensors") else 0.0):
             break      # outside the bounded regime the property talks about
     return events
 
@@ -203,6 +211,10 @@ def run(ctx):
         for i in range(nh):
             jobs.append({"model": m, "seed": ctx.seed * 100000 + m * 1000 + i, "steps": steps, "k": [None, 5.0][i % 2], "max_dt": [0.1, 0.02, 0.5][i % 3],
                          "scale_noise": i % 3 != 2})
+    for m in range(4):
+        for i in range(16 if quick else 60):
+            jobs.append({"model": m, "seed": ctx.seed * 100000 + 70000 + m * 1000 + i, "steps": steps, "k": None, "max_dt": [0.1, 0.5][i % 2],
+                         "exact_sensors": True, "scale_noise": True})
     for i, s in enumerate(scns[: (12 if quick else 200)]):
         d = Definition(s["def"])
         if d.sensors:
